@@ -29,7 +29,7 @@ def run(ctx):
         from .c11 import model
         model(ctx, wd, 'GF(5)', 3, 1, 'SB1')
         if not ctx.quick:
-            model(ctx, wd, 'GF(7)', 5, 2, 'SB1')
+            model(ctx, wd, 'GF(5)', 4, 1, 'SB1')
         evs = []
         for (m, t) in c07.world_cfgs(ctx):
             sp = [s for s in specs(m, t, rnd, ctx.quick) if s['kind'] in ('output', 'transfer')]
